@@ -3,6 +3,7 @@ package main
 // A6, C6 (SSA, interprocedural): retention settings.
 
 import (
+	"os"
 	"go/constant"
 	"fmt"
 	"go/token"
@@ -72,6 +73,32 @@ func performsAlters(fn *ssa.Function, depth int) (n int, allChecked bool) {
 					if m > 0 && (!ok2 || !errLeaves(call)) {
 						allChecked = false
 					}
+					// a statement runner: the helper Execs the text it is given, and this call gives it an ALTER
+					for _, hb := range sc.Blocks {
+						for _, hi := range hb.Instrs {
+							ex, ok := hi.(*ssa.Call)
+							if !ok || !ex.Common().IsInvoke() || ex.Common().Method.Name() != "Exec" || !isDriverConn(ex.Common().Value.Type()) || len(ex.Common().Args) < 2 {
+								continue
+							}
+							for i, p := range sc.Params {
+								if i >= len(call.Common().Args) {
+									break
+								}
+								if !dependsOnValue(ex.Common().Args[1], func(x ssa.Value) bool { return x == ssa.Value(p) }, map[ssa.Value]bool{}, 0) {
+									continue
+								}
+								for _, t := range queryTextsOf(call.Common().Args[i]) {
+									if isAlterText(t) {
+										n++
+										if !errLeaves(ex) || !errLeaves(call) {
+											allChecked = false
+										}
+										break
+									}
+								}
+							}
+						}
+					}
 				}
 			}
 		}
@@ -81,7 +108,7 @@ func performsAlters(fn *ssa.Function, depth int) (n int, allChecked bool) {
 
 var ruleA6 = &Rule{
 	ID:    "A6",
-	Floor: 12,
+	Floor: 6, // one generic runner for every kind of alteration yields 7 obligations; two written-out routines 14
 	Doc: "retention (SSA, interprocedural): in every live function of ctrl/ that records an applied setting (calls the routine that runs `INSERT INTO settings`, whatever it is called): it reads the recorded value with the routine that queries the settings table, under the same (type, name); a comparison of the recorded value with the value putSetting records exists and from its `equal` edge neither an ALTER nor putSetting can be reached; " +
 		"every ALTER — a driver Exec whose statement text is an ALTER, in the function itself or in a helper it calls — sits in a loop, lets its error leave (in the helper and at the helper's call site), and from its failure edge putSetting cannot be reached; putSetting is not in that loop; the value recorded is also interpolated into / bound to the ALTER (possibly through the helper's parameters)",
 	Run: func(c *Ctx) []Obl {
@@ -93,7 +120,7 @@ var ruleA6 = &Rule{
 		}
 		for _, fn := range moduleFuncs(c.CG()) {
 			// thin forwarding wrappers of the settings routines are judged at their callers
-			if isTestFunc(c, fn) || !strings.HasPrefix(fnPkgRel(fn), "ctrl") || api.inner[fn] != nil {
+			if isTestFunc(c, fn) || !strings.HasPrefix(fnPkgRel(fn), "ctrl") || api.inner[fn] != nil || fn.Synthetic != "" {
 				continue
 			}
 			var put, get *ssa.Call
@@ -164,7 +191,7 @@ var ruleA6 = &Rule{
 				if !ok || (cmp.Op != token.EQL && cmp.Op != token.NEQ) {
 					continue
 				}
-				if (cmp.X == recorded && cmp.Y == desired) || (cmp.Y == recorded && cmp.X == desired) {
+				if (cmp.X == recorded && sameExpr(cmp.Y, desired, 0)) || (cmp.Y == recorded && sameExpr(cmp.X, desired, 0)) {
 					eqSucc = b.Succs[0]
 					if cmp.Op == token.NEQ {
 						eqSucc = b.Succs[1]
@@ -184,6 +211,7 @@ var ruleA6 = &Rule{
 				ins    *ssa.Call
 				text   string
 				helper *ssa.Function
+				impls  []*ssa.Function // the alteration is a method of an object: its implementations (all of them ALTER)
 			}
 			var sites []site
 			for _, a := range alterExecs(fn) {
@@ -193,14 +221,33 @@ var ruleA6 = &Rule{
 						t = q
 					}
 				}
-				sites = append(sites, site{a, t, nil})
+				sites = append(sites, site{a, t, nil, nil})
 			}
 			for _, b := range fn.Blocks {
 				for _, ins := range b.Instrs {
 					if call, ok := ins.(*ssa.Call); ok {
 						if sc := call.Common().StaticCallee(); sc != nil && isModuleFn(sc) && !api.putLike[sc] && !api.getLike[sc] {
 							if n, _ := performsAlters(sc, 0); n > 0 {
-								sites = append(sites, site{call, "ALTERs in " + sc.Name(), sc})
+								sites = append(sites, site{call, "ALTERs in " + sc.Name(), sc, nil})
+							}
+						} else if call.Common().IsInvoke() {
+							// the kind of alteration is an object: every implementation the call can reach must ALTER
+							var impls []*ssa.Function
+							all := true
+							for _, e := range c.CG().vtaOut[fn] {
+								if e.Site != ssa.CallInstruction(call) || !isModuleFn(e.Callee) {
+									continue
+								}
+								impls = append(impls, e.Callee)
+								if n, _ := performsAlters(e.Callee, 0); n == 0 {
+									all = false
+								}
+							}
+							if os.Getenv("QVET_DEBUG_A6") != "" {
+								fmt.Fprintln(os.Stderr, "A6 invoke", call, "impls", impls, "all", all, "edges", len(c.CG().vtaOut[fn]))
+							}
+							if all && len(impls) > 0 {
+								sites = append(sites, site{call, "ALTERs in the implementations of " + call.Common().Method.Name(), nil, impls})
 							}
 						}
 					}
@@ -223,6 +270,11 @@ var ruleA6 = &Rule{
 				checked := errLeaves(s.ins)
 				if s.helper != nil {
 					if _, ok := performsAlters(s.helper, 0); !ok {
+						checked = false
+					}
+				}
+				for _, im := range s.impls {
+					if _, ok := performsAlters(im, 0); !ok {
 						checked = false
 					}
 				}
@@ -252,6 +304,53 @@ var ruleA6 = &Rule{
 					"putSetting can be reached after a failed ALTER, or lies inside the loop: the setting is recorded although not every table was altered, and later runs skip the repair")
 				for _, a := range s.ins.Common().Args {
 					if dependsOnValue(a, func(x ssa.Value) bool { return x == desired }, map[ssa.Value]bool{}, 0) {
+						anyUses = true
+					}
+				}
+				// the alteration object that is applied is the one whose accessor supplied the recorded value, and each of its
+				// implementations feeds its statement from the receiver
+				if dc, ok := desired.(*ssa.Call); ok && len(s.impls) > 0 && dc.Common().IsInvoke() && sameExpr(dc.Common().Value, s.ins.Common().Value, 0) && pureGetterMethod(dc.Common().Method) {
+					fed := true
+					for _, im := range s.impls {
+						if len(im.Params) == 0 {
+							fed = false
+							continue
+						}
+						recv := im.Params[0]
+						uses := false
+						var scan func(f *ssa.Function, d int)
+						scan = func(f *ssa.Function, d int) {
+							for _, a := range alterExecs(f) {
+								for _, arg := range a.Common().Args {
+									if dependsOnValue(arg, func(x ssa.Value) bool { return x == ssa.Value(recv) }, map[ssa.Value]bool{}, 0) {
+										uses = true
+									}
+								}
+							}
+						}
+						scan(im, 0)
+						for _, ib := range im.Blocks {
+							for _, ii := range ib.Instrs {
+								if sc2, ok := ii.(*ssa.Call); ok && sc2.Common().StaticCallee() != nil && isModuleFn(sc2.Common().StaticCallee()) {
+									for _, arg := range sc2.Common().Args {
+										isAlter := false
+										for _, t := range queryTextsOf(arg) {
+											if isAlterText(t) {
+												isAlter = true
+											}
+										}
+										if isAlter && dependsOnValue(arg, func(x ssa.Value) bool { return x == ssa.Value(recv) }, map[ssa.Value]bool{}, 0) {
+											uses = true
+										}
+									}
+								}
+							}
+						}
+						if !uses {
+							fed = false
+						}
+					}
+					if fed {
 						anyUses = true
 					}
 				}
@@ -617,6 +716,11 @@ func sameExpr(a, b ssa.Value, d int) bool {
 		return ok && x.Op == y.Op && x.Op == token.MUL && sameAddr(x.X, y.X, 0)
 	case *ssa.Call:
 		y, ok := b.(*ssa.Call)
+		if ok && x.Common().IsInvoke() && y.Common().IsInvoke() && x.Common().Method == y.Common().Method &&
+			len(x.Common().Args) == 0 && len(y.Common().Args) == 0 && sameExpr(x.Common().Value, y.Common().Value, d+1) {
+			// the same accessor of the same object, every implementation of which only reads a field of its receiver
+			return pureGetterMethod(x.Common().Method)
+		}
 		if !ok || x.Common().StaticCallee() == nil || x.Common().StaticCallee() != y.Common().StaticCallee() {
 			return false
 		}
@@ -742,4 +846,57 @@ func enumEval(fn *ssa.Function, k string) (string, bool) {
 		}
 	}
 	return "", false
+}
+
+// pureGetterMethod: every implementation of the interface method in the module returns a field of its receiver (or a constant)
+// and does nothing else — two calls on one object yield the same value.
+func pureGetterMethod(m *types.Func) bool {
+	c := lastCtx
+	if c == nil || c.prog == nil || m == nil {
+		return false
+	}
+	key := "pureGetter:" + m.FullName()
+	if v, ok := c.memo[key]; ok {
+		return v.(bool)
+	}
+	res, n := true, 0
+	sig := m.Type().(*types.Signature)
+	it, _ := sig.Recv().Type().Underlying().(*types.Interface)
+	if it == nil {
+		res = false
+	}
+	for fn := range c.CG().funcs {
+		if !res {
+			break
+		}
+		if fn.Signature.Recv() == nil || fn.Name() != m.Name() || !isModuleFn(fn) || fn.Synthetic != "" {
+			continue
+		}
+		if !types.Implements(fn.Signature.Recv().Type(), it) {
+			continue
+		}
+		n++
+		if len(fn.Blocks) != 1 {
+			res = false
+			break
+		}
+		for _, ins := range fn.Blocks[0].Instrs {
+			switch ins.(type) {
+			case *ssa.FieldAddr, *ssa.Field, *ssa.UnOp, *ssa.Return, *ssa.DebugRef, *ssa.Alloc, *ssa.Store:
+				// value receivers are spilled to a local cell (Alloc + Store of the parameter)
+				if st, ok := ins.(*ssa.Store); ok {
+					if _, isParam := st.Val.(*ssa.Parameter); !isParam {
+						res = false
+					}
+				}
+			default:
+				res = false
+			}
+		}
+	}
+	if n == 0 {
+		res = false
+	}
+	c.memo[key] = res
+	return res
 }
